@@ -465,6 +465,9 @@ impl<'a> Parser<'a> {
         // Properly parse the expression string by lexing and parsing it
         use crate::lexer;
 
+        // blanks around the expression are layout (`f"{ x }"` is `f"{x}"`); a leading blank must not lex as indentation
+        let s = s.trim();
+
         // Try to lex and parse the expression
         if let Ok(mut tokens) = lexer::lex(s) {
             // Ensure we have an EOF token at the end for the parser
